@@ -342,14 +342,11 @@ def c02_d(ctx):
         loop = enclosing_loop(e)
         ok = isinstance(loop, ast.For) and contains(
             ctx.term(rc, loop.iter, cfg_of(rc).by_stmt[id(loop)]), 'source_net.nodes(*_)')
-        gs = [(t, pol) for (t, pol, _) in ctx.guards(rc, e)]
-        flag = [(t, pol) for (t, pol) in gs if contains(t, "'_stochastic'")]
-        others = [(t, pol) for (t, pol) in gs if not contains(t, "'_stochastic'")]
-        pos_flag = all((pol and match(t, pattern("'_stochastic' in _['attr_dict']")) is not None)
-                       or (pol and match(t, pattern("_['attr_dict']['_stochastic']")) is not None)
-                       or (not pol and match(t, pattern("'_stochastic' not in _['attr_dict']"))
-                           is not None) for (t, pol) in flag)
-        ctx.check(ok and flag and pos_flag and not others, rc,
+        groups = ctx.guard_groups(rc, e)
+        pos_flag = ctx.only_guarded_by(rc, e, ("'_stochastic' in _['attr_dict']",
+                                               "_['attr_dict']['_stochastic']",
+                                               "_['attr_dict'].get('_stochastic', *_)"))
+        ctx.check(ok and len(groups) == 1 and pos_flag, rc,
                   'all stochastic nodes',
                   'edge added for every node carrying _stochastic',
                   'the generator edge is not added for exactly the nodes flagged _stochastic',
